@@ -17,8 +17,17 @@ def m_name_leak(v, params):
     if "const" in r:
         return cc.contains_name(r["const"], idents)
     if "residual" in r:
-        for m in re.finditer(r"(?:1|q) \. (" + NAME + r")\b", r["residual"]):
-            if m.group(1).split("_$_")[0] in idents:
+        # a free variable inside quoted data of the residual: (q . P2), (1 . P2), (q P2), (q 5 P2 ..)
+        text = r["residual"]
+        toks = re.findall(r"\(|\)|[^\s()]+", text)
+        depth_q = []  # stack: is this list a quotation?
+        for i, t in enumerate(toks):
+            if t == "(":
+                depth_q.append(i + 1 < len(toks) and toks[i + 1] in ("q", "1"))
+            elif t == ")":
+                if depth_q:
+                    depth_q.pop()
+            elif any(depth_q) and t.split("_$_")[0] in idents:
                 return True
     return False
 
